@@ -99,7 +99,12 @@ def codec_lines(ctx, rng, n):
             d = rng.randrange(1, c["n"])
             q = refec.mul(c, d, (c["gx"], c["gy"]))
             pts = [q, (q[0], p - q[1]), (q[0], (q[1] + 1) % p), (rng.randrange(p), rng.randrange(p)), (0, 0), (p, 1), (256 ** ln, 5)]
-            for (x, y) in pts[: (3 if n < 3 else len(pts))]:
+            pts = pts[: (3 if n < 3 else len(pts))]
+            if _ == 0:
+                # a genuine point with a small coordinate, written with the representative `coordinate + p`
+                sx, sy = refec.points_with_small_coordinate(c, rng, count=1)
+                pts += [(x, y + p) for (x, y) in sy] + [(x + p, y) for (x, y) in sx] + sy + sx
+            for (x, y) in pts:
                 for e in ("raw", "uncompressed", "compressed", "hybrid"):
                     out.append(f"pt.enc {name} {e} {x} {y}")
                 if x < 256 ** ln and y < 256 ** ln:
@@ -347,6 +352,16 @@ def run(ctx):
                             ((q[0], p - q[1]), "valid"), ((0, 0), "zero"), ((p, q[1]), "out-of-range"),
                             ((q[0], p + 1), "out-of-range"), ((c["gx"], c["gy"]), "valid")]:
             props.append(f"prop.c19point {name} {x} {y} {why}")
+        # genuine points with one coordinate small, encoded with the representative `coordinate + p` (fits the fixed width when
+        # p is not just below a power of 256): out of range, to be refused although the reduced pair is on the curve
+        ln = (p.bit_length() + 7) // 8
+        sx, sy = refec.points_with_small_coordinate(c, rng, count=1 if quick else 4)
+        for (x, y) in sy:
+            if y + p < 256 ** ln:
+                props.append(f"prop.c19point {name} {x} {y + p} out-of-range")
+        for (x, y) in sx:
+            if x + p < 256 ** ln:
+                props.append(f"prop.c19point {name} {x + p} {y} out-of-range")
         props.append(f"prop.c19struct {name} {d} {rng.randrange(10 ** 6)} {30 if quick else 400}")
     for i in range(16 if quick else 64):
         props.append(f"prop.c19explicit {rng.randrange(10 ** 9)} {400 if quick else 3000}")
